@@ -171,6 +171,16 @@ class World:
 
     def run_step(self, st):
         qq = q()
+        if st[0] == "read":
+            # the quantity is evaluated (value, uncertainty, a derivative) BEFORE later steps use it as an operand:
+            # whatever the library buffers at this point must not leak into the results built on top of it
+            r = self.objs[st[1]]
+            with warnings.catch_warnings():
+                warnings.simplefilter("ignore")
+                _ = r.value, r.error
+                for m in self.measurement_ids()[:2]:
+                    r.derivative(self.objs[m])
+            return None
         if st[0] == "meas":
             m = qq.Measurement(st[1], st[2])
             return self._register(m, ("meas", float(st[1]), float(st[2])))
@@ -253,6 +263,8 @@ def gen_program(rng, n_meas=None, n_ops=None, rational_only=False, allow_pairs=T
             v = 0.0                        # a central value of exactly 0 (inside the domain of + - * neg and whole powers >= 1)
         elif rng.random() < 0.1:
             v = rng.choice([10.0, 1.0, 2.0, -1.0, 100.0, 10.0])     # numbers a shortcut might single out (bases, units)
+        elif vals and rng.random() < 0.15:
+            v = rng.choice(vals)           # a DISTINCT measurement with the same central value as an earlier one
         e = rng.choice([0.0, 0.125, 0.25, 0.5, 0.0625, 1.0, dyadic(rng, -4, 1) ** 2])
         if rng.random() < 0.1:
             e = rng.choice([2.0 ** -14, 2.0 ** -17, 3 * 2.0 ** -16, 2.0 ** -20])   # small against every absolute tolerance
@@ -354,6 +366,8 @@ def gen_program(rng, n_meas=None, n_ops=None, rational_only=False, allow_pairs=T
         vals.append(nv)
         kinds.append("der")
         made += 1
+        if rng.random() < 0.2:
+            steps.append(["read", len(vals) - 1])
     # correlations between measurements with non-zero uncertainty (explicit measurements only)
     # the matrix is kept diagonally dominant (hence positive semi-definite: a jointly non-physical assignment makes the
     # propagated variance negative, which the library rejects)
